@@ -11,7 +11,7 @@ def U(uid, functions, harnesses, props, completeness="complete", domain="", tier
                 replay=replay, backend=backend, assumes=list(assumes))
 
 
-A_DROP = "A-DROP: AST destructors have no observable effect (drop glue stubbed to no-ops; harness leaks)"
+A_DROP = "A-DROP: destructors have no observable effect (ALL drop glue stubbed to no-ops; the harness leaks). False for std guard types: Vec::extend_from_slice (SetLenOnDrop) is replaced by verif_models::extend_from_slice_model in every harness (self-check harness guard_model_selfcheck); Vec::extend / resize / exact-size collect from slice iterators, sort guards, Drain/Splice are not reached by the units"
 A_CLONE = "A-CLONE: Clone of stand-in AST nodes is a bitwise copy (sound because nothing is dropped and cloned nodes are never mutated in place by the visitor; site audit in DESIGN.md 3.4)"
 A_STANDIN = "A-STANDIN: swc_core / css_dataset / regex / indexmap / fnv are replaced by the stand-in crates under /verif/standin (assumed contracts on dependencies; names checked by tools/conformance.py)"
 A_FMT = "A-FMT: format! replaced by a marker model in harnesses that carry the stub (generated identifier texts not checked there)"
@@ -192,6 +192,8 @@ for _u in UNITS:
         _u["props"].append("C12")
 
 CANARY = dict(harness="canary_must_fail", timeout=300, mem_gb=4)
+# self-check of the drop-glue assumption: must PASS (the model of Vec::extend_from_slice is in place and correct)
+SELFCHECK = dict(harness="guard_model_selfcheck", timeout=300, mem_gb=4)
 
 PROPERTIES = {}
 
